@@ -2,6 +2,7 @@
 from __future__ import annotations
 
 import json
+import re
 from typing import Any, Callable, Dict, List
 
 
@@ -36,6 +37,9 @@ def guarded(fn: Callable[[], str], excmap: Dict[str, Any] | None = None) -> str:
         return f'EXC:{name}'
 
 
+_HARNESS_BUG = re.compile(r"raised NameError: name '\w+' is not defined")
+
+
 def first_failures(cases: List[Any], check: Callable[[Any], Any], key: Callable[[Any], Any],
                    limit_per_key: int = 1) -> List[Dict[str, Any]]:
     """Evaluate the property oracle on every case; keep, per distinct key, the smallest
@@ -45,6 +49,12 @@ def first_failures(cases: List[Any], check: Callable[[Any], Any], key: Callable[
         msg = check(c)
         if msg is None:
             continue
+        if isinstance(msg, str) and _HARNESS_BUG.search(msg):
+            # an undefined NAME is a defect of whoever wrote the code that raised; panqec's own modules are
+            # import-checked by its test-suite, the oracle code of this harness is not: never report it as a
+            # failing input of the property
+            from harness.core import ToolFailure
+            raise ToolFailure(f'the oracle itself raised ({msg[:200]}) on {json.dumps(c, default=str)[:200]}')
         k = json.dumps(key(c), sort_keys=True, default=str)
         size = len(json.dumps(c, default=str))
         if k not in best or size < best[k]['_size']:
